@@ -81,7 +81,7 @@ func (st *State) stringConst(s string, t types.Type) Val {
 		for i := 0; i < len(s); i++ {
 			fs = append(fs, sEq(sSel(key, sInt(int64(i))), sInt(int64(s[i]))))
 		}
-		st.facts = st.facts.push(sAnd(fs...))
+		st.addFact(sAnd(fs...))
 	}
 	return mkString(t, key, "0", sInt(int64(len(s))))
 }
@@ -190,28 +190,28 @@ func (st *State) globalVal(o *types.Var) Val {
 	if classify(o.Type()) == tcIface || classify(o.Type()) == tcPtr {
 		// sentinel errors / package singletons: non-nil and pairwise distinct by identity
 		id := st.fc.V.globalID(base)
-		st.facts = st.facts.push(sEq(v.S, sInt(int64(-1000-id))))
+		st.addFact(sEq(v.S, sInt(int64(-1000-id))))
 	} else {
 		// globals were allocated before the function was entered
 		for _, f := range st.typeFactsAt(v, st.fc.entryAlloc()) {
-			st.facts = st.facts.push(f)
+			st.addFact(f)
 		}
 	}
 	if v.K == KSlice && !o.Exported() {
 		// an unexported package-level slice that is never handed out does not alias any parameter
 		for _, a := range st.fc.inputArrs {
-			st.facts = st.facts.push(sOr(sNot(sEq(v.arr(), a)), sEq(a, "0")))
+			st.addFact(sOr(sNot(sEq(v.arr(), a)), sEq(a, "0")))
 		}
-		st.facts = st.facts.push(sNot(sEq(v.arr(), "0")))
+		st.addFact(sNot(sEq(v.arr(), "0")))
 		st.fc.noteAssumption("unexported package-level slice " + pkgName + "." + o.Name() + " is not aliased by any parameter (it is never returned or stored by the package)")
 	}
 	if v.K == KArray && !o.Exported() {
 		if at, ok := o.Type().Underlying().(*types.Array); ok && classify(at.Elem()) == tcSlice {
 			// array of slices: component 0 holds the array ids
 			for _, a := range st.fc.inputArrs {
-				st.facts = st.facts.push(fmt.Sprintf("(forall ((g_k Int)) (! (or (not (= (select %s g_k) %s)) (= %s 0)) :pattern ((select %s g_k))))", v.Sub[0].S, a, a, v.Sub[0].S))
+				st.addFact(fmt.Sprintf("(forall ((g_k Int)) (! (or (not (= (select %s g_k) %s)) (= %s 0)) :pattern ((select %s g_k))))", v.Sub[0].S, a, a, v.Sub[0].S))
 			}
-			st.facts = st.facts.push(fmt.Sprintf("(forall ((g_k Int)) (! (and (<= 0 (select %s g_k)) (< (select %s g_k) %s)) :pattern ((select %s g_k))))", v.Sub[0].S, v.Sub[0].S, st.fc.entryAlloc(), v.Sub[0].S))
+			st.addFact(fmt.Sprintf("(forall ((g_k Int)) (! (and (<= 0 (select %s g_k)) (< (select %s g_k) %s)) :pattern ((select %s g_k))))", v.Sub[0].S, v.Sub[0].S, st.fc.entryAlloc(), v.Sub[0].S))
 			st.fc.noteAssumption("slices stored in the unexported package-level array " + pkgName + "." + o.Name() + " are not aliased by any parameter")
 		}
 	}
@@ -945,7 +945,7 @@ func (st *State) bitop(op, a, b string, bits uint, signed bool, what string) str
 		// disjoint bits add up: for every k, a a multiple of 2^k and 0 <= b < 2^k  =>  a | b = a + b (a >= 0)
 		st.fc.V.needPow2 = true
 		for _, k := range st.shiftAmounts(a) {
-			st.facts = st.facts.push(sImp(sAnd(sCmp("<=", "0", k), sCmp("<=", k, "62"), sCmp(">=", a, "0"), sEq(sApp("mod", a, sApp("g_pow2", k)), "0"), sCmp("<=", "0", b), sCmp("<", b, sApp("g_pow2", k))), sEq(t, sAdd(a, b))))
+			st.addFact(sImp(sAnd(sCmp("<=", "0", k), sCmp("<=", k, "62"), sCmp(">=", a, "0"), sEq(sApp("mod", a, sApp("g_pow2", k)), "0"), sCmp("<=", "0", b), sCmp("<", b, sApp("g_pow2", k))), sEq(t, sAdd(a, b))))
 		}
 		st.fc.noteAssumption("x | y = x + y when x is a multiple of 2^k and 0 <= y < 2^k: arithmetic fact added at uses whose left operand is a shift (not bit-blasted)")
 	}
@@ -954,8 +954,8 @@ func (st *State) bitop(op, a, b string, bits uint, signed bool, what string) str
 		//   b+1 a power of two  =>  a & b = a mod (b+1)
 		//   b = a-1, a > 0      =>  (a & b = 0  <=>  a is a power of two)
 		st.fc.V.ispow2Prelude()
-		st.facts = st.facts.push(sImp(sApp("g_ispow2", sAdd(b, "1")), sEq(t, sApp("mod", a, sAdd(b, "1")))))
-		st.facts = st.facts.push(sImp(sAnd(sEq(b, sSub(a, "1")), sCmp(">", a, "0")), sEq(sEq(t, "0"), sApp("g_ispow2", a))))
+		st.addFact(sImp(sApp("g_ispow2", sAdd(b, "1")), sEq(t, sApp("mod", a, sAdd(b, "1")))))
+		st.addFact(sImp(sAnd(sEq(b, sSub(a, "1")), sCmp(">", a, "0")), sEq(sEq(t, "0"), sApp("g_ispow2", a))))
 		st.fc.noteAssumption("x & m is related to x mod (m+1) for m+1 a power of two by an arithmetic fact added at each use (not bit-blasted)")
 	}
 	return t
@@ -1125,7 +1125,7 @@ func (st *State) modFacts(a, b string) {
 	if strings.Contains(a, "g_q") || strings.Contains(b, "g_q") || strings.Contains(a, "g_abs") || strings.Contains(a, "g_l_") || strings.Contains(a, "g_ih_") {
 		return // inside a quantifier: bound variables cannot be mentioned in path facts
 	}
-	st.facts = st.facts.push(f)
+	st.addFact(f)
 }
 
 // shiftAmounts returns the shift counts k of subterms (x << k) that define term a (looked up through SSA definitions).
@@ -1226,7 +1226,7 @@ func (st *State) singleBitOp(op, a, b string, bits uint, signed bool) (string, b
 		}
 		inr := sAnd(sCmp("<=", "0", k), sCmp("<", k, limit))
 		p := sApp("g_pow2", k)
-		st.facts = st.facts.push(sImp(inr, sCmp(">=", p, "1")))
+		st.addFact(sImp(inr, sCmp(">=", p, "1")))
 		bitSet := sEq(sApp("g_bit", w, k), "1")
 		var r, newbit string
 		switch {
@@ -1241,11 +1241,11 @@ func (st *State) singleBitOp(op, a, b string, bits uint, signed bool) (string, b
 		}
 		rt := st.define("t", "Int", r)
 		// per-bit and popcount facts for the updated word
-		st.facts = st.facts.push(sImp(inr, fmt.Sprintf("(forall ((g_j Int)) (! (=> (and (<= 0 g_j) (< g_j 64)) (= (g_bit %s g_j) (ite (= g_j %s) %s (g_bit %s g_j)))) :pattern ((g_bit %s g_j))))", rt, k, newbit, w, rt)))
+		st.addFact(sImp(inr, fmt.Sprintf("(forall ((g_j Int)) (! (=> (and (<= 0 g_j) (< g_j 64)) (= (g_bit %s g_j) (ite (= g_j %s) %s (g_bit %s g_j)))) :pattern ((g_bit %s g_j))))", rt, k, newbit, w, rt)))
 		if newbit == "1" {
-			st.facts = st.facts.push(sImp(inr, sEq(sApp("g_pc64", rt), sIte(bitSet, sApp("g_pc64", w), sAdd(sApp("g_pc64", w), "1")))))
+			st.addFact(sImp(inr, sEq(sApp("g_pc64", rt), sIte(bitSet, sApp("g_pc64", w), sAdd(sApp("g_pc64", w), "1")))))
 		} else {
-			st.facts = st.facts.push(sImp(inr, sEq(sApp("g_pc64", rt), sIte(bitSet, sSub(sApp("g_pc64", w), "1"), sApp("g_pc64", w)))))
+			st.addFact(sImp(inr, sEq(sApp("g_pc64", rt), sIte(bitSet, sSub(sApp("g_pc64", w), "1"), sApp("g_pc64", w)))))
 		}
 		st.fc.noteAssumption("single-bit updates of 64-bit words: per-bit and popcount facts are the integer images of bit-vector lemmas proved in lemmas/bits.smt2")
 		return rt, true
@@ -1277,8 +1277,8 @@ func (st *State) singleBitOp(op, a, b string, bits uint, signed bool) (string, b
 	}
 	V.addPrelude(fn, fmt.Sprintf("(declare-fun %s (Int Int) Int)", fn))
 	rt := st.define("t", "Int", sApp(fn, x, y))
-	st.facts = st.facts.push(sAnd(sCmp("<=", "0", rt), sCmp("<=", rt, "18446744073709551615")))
-	st.facts = st.facts.push(fmt.Sprintf("(forall ((g_j Int)) (! (=> (and (<= 0 g_j) (< g_j 64)) (= (g_bit %s g_j) %s)) :pattern ((g_bit %s g_j))))", rt, fmt.Sprintf(comb, x, y), rt))
+	st.addFact(sAnd(sCmp("<=", "0", rt), sCmp("<=", rt, "18446744073709551615")))
+	st.addFact(fmt.Sprintf("(forall ((g_j Int)) (! (=> (and (<= 0 g_j) (< g_j 64)) (= (g_bit %s g_j) %s)) :pattern ((g_bit %s g_j))))", rt, fmt.Sprintf(comb, x, y), rt))
 	st.fc.noteAssumption("word-wise and/or/and-not on 64-bit words: per-bit characterisation is the integer image of bit-vector lemmas proved in lemmas/bits.smt2")
 	return rt, true
 }
